@@ -70,13 +70,26 @@ impl LayerContents {
         };
 
         // a layer lives in a directory directly inside the UFO, so each entry
-        // must be a plain directory name: no `..`, no nesting, not absolute
+        // must be a plain directory name: no `..`, no nesting, not absolute;
+        // layer names and directories must each be unique, and only the
+        // default layer may be named `public.default`
+        let mut seen_names = HashSet::new();
+        let mut seen_dirs = HashSet::new();
         for (name, path) in &to_load {
-            if plain_name(path).is_none() {
+            let Some(dir) = plain_name(path) else {
                 return Err(FontLoadError::InvalidLayerDirectory {
                     name: name.to_string(),
                     path: path.clone(),
                 });
+            };
+            if !seen_names.insert(name) {
+                return Err(FontLoadError::DuplicateLayerName(name.to_string()));
+            }
+            if !seen_dirs.insert(dir) {
+                return Err(FontLoadError::DuplicateLayerDirectory(path.clone()));
+            }
+            if name.as_str() == DEFAULT_LAYER_NAME && dir != OsStr::new(DEFAULT_GLYPHS_DIRNAME) {
+                return Err(FontLoadError::ReservedLayerName);
             }
         }
 
